@@ -1,4 +1,6 @@
 import HclModel
+import HclModel.Expr.FreeVars
+import HclModel.Conc.SymbolTable
 open HclModel
 
 structure St where
@@ -39,6 +41,23 @@ def handle (st : St) (line : String) : St × String :=
     match Sexp.parseMany (line.drop 5).toString with
     | some [e, env] => (st, evalLine e env)
     | _ => (st, "bad-op")
+  else if line.startsWith "NI " then
+    match Sexp.parseMany (line.drop 3).toString with
+    | some [e, a, b] => (st, niLine e a b)
+    | _ => (st, "bad-op")
+  else if line.startsWith "CONC " then
+    match Sexp.parseMany (line.drop 5).toString with
+    | some [e, a, b] => (st, concLine e a b)
+    | _ => (st, "bad-op")
+  else if line.startsWith "VARS " then
+    match Sexp.parse (line.drop 5).toString with
+    | some e =>
+      match exprOfSexp e with
+      | some ex =>
+        let names := ((fv ex).filter fun n => !n.startsWith "%").eraseDups
+        (st, " ".intercalate ((names.toArray.qsort (· < ·)).toList.map stringHex))
+      | none => (st, "unsupported-input")
+    | none => (st, "bad-op")
   else
   match line.splitOn " " with
   | "ECHO" :: rest => (st, " ".intercalate rest)
@@ -59,6 +78,30 @@ def handle (st : St) (line : String) : St × String :=
       let adv : List Nat → Nat := fun rest => arr.getD (n - rest.length) 1
       match Json.parseExpression adv bs with
       | some node => (st, "acc " ++ Json.dump node)
+      | none => (st, "rej")
+    | _, _ => (st, "bad-op")
+  | "SYMTAB" :: ops =>
+    -- SYMTAB s:<key>:<val> | c:<key> | g:<key> ...  →  observed gets ("-" = no entry) and the final table size
+    let parsed : Option (List Conc.Op) := (ops.filter (· ≠ "")).mapM fun o =>
+      match o.splitOn ":" with
+      | ["s", k, v] => do pure (Conc.Op.set (← k.toNat?) (← v.toNat?))
+      | ["c", k] => do pure (Conc.Op.clear (← k.toNat?))
+      | ["g", k] => do pure (Conc.Op.get (← k.toNat?))
+      | _ => none
+    match parsed with
+    | some os =>
+      let (t, reads) := Conc.run [] os
+      (st, " ".intercalate (reads.map fun r => match r with | some v => toString v | none => "-") ++ " | " ++ toString t.length)
+    | none => (st, "bad-op")
+  | ["JSONACC", hex, advs] =>
+    -- acceptance only (no tree dump: plain decimal expansion of huge exponents is not printable)
+    match Sexp.hexBytes hex, (if advs == "-" then some [] else splitNats advs ',') with
+    | some bs, some tbl =>
+      let arr := tbl.toArray
+      let n := bs.length
+      let adv : List Nat → Nat := fun rest => arr.getD (n - rest.length) 1
+      match Json.parseExpression adv bs with
+      | some _ => (st, "acc")
       | none => (st, "rej")
     | _, _ => (st, "bad-op")
   | ["JSONSCAN", hex, advs] =>
